@@ -253,6 +253,8 @@ def cterm(e, depth=0):
         return "CLit " + cs(e.get("value"))
     if k == "CXXNullPtrLiteralExpr":
         return 'CLit "nullptr"'
+    if k in ("InitListExpr", "CXXScalarValueInitExpr", "ImplicitValueInitExpr") and not inner:
+        return 'CLit "{}"'            # value-initialisation: zero / null
     return "COther " + cs(k or "?")
 
 
@@ -437,6 +439,35 @@ def walk_body(n, writes, calls, guard=()):
         walk_body(c, writes, calls, guard)
 
 
+def walk_vals(n, out):
+    """whole-member assignments `member = value` (built-in `=` and operator=) with the assigned value as a cexpr term"""
+    if not isinstance(n, dict):
+        return
+    k = n.get("kind")
+    inner = n.get("inner") or []
+    if k == "BinaryOperator" and n.get("opcode") == "=" and len(inner) == 2:
+        fc = field_chain(inner[0])
+        if fc and fc[0] and fc[1] and fc[2] == "":
+            out.append((fc[0], fc[1], cterm(inner[1]), fc[3]))
+    elif k == "CXXOperatorCallExpr" and len(inner) >= 3:
+        cal = strip_casts(inner[0])
+        if isinstance(cal, dict) and cal.get("referencedDecl", {}).get("name") == "operator=":
+            fc = field_chain(inner[1])
+            if fc and fc[0] and fc[1] and fc[2] == "":
+                out.append((fc[0], fc[1], cterm(inner[2]), fc[3]))
+    for c in inner:
+        walk_vals(c, out)
+
+
+def ctor_init_vals(fn, cls, inits):
+    """initial values given by constructor member initialisers (kept apart from the in-class initialisers: key "ctor")"""
+    for c in fn.get("inner") or []:
+        if c.get("kind") == "CXXCtorInitializer" and "anyInit" in c and c.get("inner") and c["anyInit"].get("name"):
+            if c["inner"][0].get("kind") == "CXXDefaultInitExpr":
+                continue                     # the constructor uses the in-class initialiser
+            inits.setdefault(("ctor", cls, c["anyInit"]["name"]), set()).add(cterm(c["inner"][0]))
+
+
 def ctor_inits(fn, cls, writes):
     """constructor member initialisers count as assignments of the constructed class"""
     for c in fn.get("inner") or []:
@@ -481,7 +512,10 @@ def all_mangled(n, out):
 
 
 def run(repo):
+    """returns (classes, funcs); classes[c]["inits"] maps a member to its initial value (in-class initialiser, else constructor
+    initialiser), funcs[f]["vals"] is the set of (class, member, value) of the whole-member assignments of f"""
     classes, funcs = {}, {}
+    nsdmi, ctor = {}, {}
     jobs = [(tu, flt) for tu, flts in TUS for flt in flts]
     with ThreadPoolExecutor(max_workers=8) as ex:
         dumps = list(ex.map(lambda j: clang_dump(repo, j[0], j[1]), jobs))
@@ -491,16 +525,33 @@ def run(repo):
             all_mangled(o, names)
     dem = demangle_all(names)
     for (tu, flt), objs in zip(jobs, dumps):
-        c2, f2 = {}, {}
-        collect_scoped(objs, c2, f2, dem)
+        c2, f2, i2 = {}, {}, {}
+        collect_scoped(objs, c2, f2, dem, i2)
+        for k, v in i2.items():
+            if k[0] == "nsdmi":
+                nsdmi.setdefault(k[1:], v)
+            else:
+                ctor.setdefault(k[1:], set()).update(v)
         for k, v in c2.items():
             if k not in classes or len(v["fields"]) >= len(classes[k]["fields"]):
                 classes[k] = v
         for k, v in f2.items():
-            f = funcs.setdefault(k, {"writes": set(), "calls": set()})
+            f = funcs.setdefault(k, {"writes": set(), "calls": set(), "vals": set()})
             f["writes"].update(v["writes"])
             f["calls"].update(v["calls"])
+            f["vals"].update(v.get("vals", ()))
+            f.setdefault("vals_on", set()).update(v.get("vals_on", ()))
+            if v.get("val_seq") and not f.get("val_seq"):
+                f["val_seq"] = v["val_seq"]
     resolve_names(classes, funcs)
+    # the initial value of a member: the constructors' member initialiser when all constructors that name the member agree, else
+    # the in-class initialiser
+    for (c, fld), v in nsdmi.items():
+        if c in classes:
+            classes[c].setdefault("inits", {})[fld] = v
+    for (c, fld), vs in ctor.items():
+        if c in classes and len(vs) == 1:
+            classes[c].setdefault("inits", {})[fld] = sorted(vs)[0]
     return classes, funcs
 
 
@@ -533,7 +584,7 @@ def resolve_names(classes, funcs):
         f["writes"] = ws
 
 
-def collect_scoped(objs, classes, funcs, dem):
+def collect_scoped(objs, classes, funcs, dem, inits=None):
     """A filtered dump prints the matching declarations without their namespaces. Functions get their qualified name from
     their mangled name (c++filt); a record gets its qualified name from the first of its member functions that has one."""
 
@@ -562,6 +613,8 @@ def collect_scoped(objs, classes, funcs, dem):
                     if c.get("kind") == "FieldDecl" and c.get("name"):
                         fields.append([c.get("name"), c.get("type", {}).get("qualType", "")])
                         anon = None
+                        if inits is not None and c.get("hasInClassInitializer") and c.get("inner"):
+                            inits[("nsdmi", q, c["name"])] = cterm(c["inner"][0])
                     elif c.get("kind") == "FieldDecl":           # anonymous union/struct member: named after its indirect members
                         anon = ["anon:", "anonymous"]
                         fields.append(anon)
@@ -583,13 +636,24 @@ def collect_scoped(objs, classes, funcs, dem):
             owner = q.rsplit("::", 1)[0] if "::" in q else ""
             if k == "FunctionDecl":
                 q = q.rsplit("::", 1)[-1]          # free functions are referenced by bare name
-            w, c = [], []
+            w, c, vs = [], [], []
             if k == "CXXConstructorDecl":
                 ctor_inits(n, owner, w)
+                if inits is not None:
+                    ctor_init_vals(n, owner, inits)
             walk_body(body[0], w, c)
-            f = funcs.setdefault(q, {"writes": set(), "calls": set()})
+            walk_vals(body[0], vs)
+            if k == "CXXConstructorDecl" and inits is not None:
+                for (vc, vf, vv, _o) in vs:      # `member = value` in the body of the class's own constructor
+                    if vc == owner:
+                        inits.setdefault(("ctor", vc, vf), set()).add(vv)
+            f = funcs.setdefault(q, {"writes": set(), "calls": set(), "vals": set()})
             f["writes"].update(w)
             f["calls"].update(c)
+            f["vals"].update(v[:3] for v in vs)
+            f.setdefault("vals_on", set()).update(vs)
+            if vs and not f.get("val_seq"):
+                f["val_seq"] = [v[:3] for v in vs]          # the same assignments in source order
             return
         for c in n.get("inner") or []:
             visit(c, scope)
@@ -712,6 +776,54 @@ def to_coq(classes, funcs):
     out.append("")
     out.append("(* the callee closures of the FollowAll roots are closed under the extracted call edges (no reachable function was lost) *)")
     out.append("Lemma reach_closed_ok : reach_closed funcs = true.")
+    out.append("Proof. vm_compute. reflexivity. Qed.")
+    out.append("")
+    vrows = sorted((q, c, fl, v) for q in funcs for (c, fl, v) in funcs[q].get("vals", ()))
+    vclasses = set(CLASSES) | set(r[1] for r in vrows)
+    irows = sorted((c, fl, v) for c in classes if c in vclasses for fl, v in classes[c].get("inits", {}).items())
+    out.append("(* initial values of data members (constructor initialiser / constructor body / in-class initialiser) *)")
+    out.append("Definition inits : list init_decl := [")
+    out.append(";\n".join("  mk_init %s %s (%s)" % (coq_str(c), coq_str(fl), v) for c, fl, v in irows))
+    out.append("].")
+    out.append("")
+    out.append("(* whole-member assignments `member = value` of the extracted functions, with the assigned value *)")
+    out.append("Definition vals : list val_decl := [")
+    out.append(";\n".join("  mk_val %s %s %s (%s)" % (coq_str(q), coq_str(c), coq_str(fl), v) for q, c, fl, v in vrows))
+    out.append("].")
+    out.append("")
+    out.append("(* the assignments, in SOURCE ORDER, of the functions that assign some member more than once (set-up ... tear-down) *)")
+    out.append("Definition val_seq : list val_decl := [")
+    srows = []
+    for q in sorted(funcs):
+        seq = funcs[q].get("val_seq") or []
+        keys = [(c, fl) for c, fl, _v in seq]
+        if len(set(keys)) < len(keys):
+            srows += ["  mk_val %s %s %s (%s)" % (coq_str(q), coq_str(c), coq_str(fl), v) for c, fl, v in seq]
+    out.append(";\n".join(srows))
+    out.append("].")
+    out.append("")
+    out.append("(* reflection: in a reviewed set-up/tear-down function (ResetSpec.teardown_funcs) the LAST assignment of every member it")
+    out.append("   assigns writes the initial value, and an unconditional assignment of the member exists *)")
+    out.append("Lemma teardown_ok : check_teardown inits val_seq funcs = true.")
+    out.append("Proof. vm_compute. reflexivity. Qed.")
+    out.append("")
+    out.append("(* reflection: every assignment of a reviewed pure reset function (ResetSpec.value_funcs) writes the member's initial value,")
+    out.append("   or is a reviewed exception that really differs. Re-checked by coqc whenever this file changes. *)")
+    out.append("Lemma reset_values_ok : check_values inits vals = true.")
+    out.append("Proof. vm_compute. reflexivity. Qed.")
+    out.append("")
+    out.append("(* reflection: the two extractions agree -- every whole-member assign-write of a reviewed pure reset / tear-down function has a value row *)")
+    out.append("Lemma assign_writes_have_values_ok : assign_writes_have_values funcs vals = true.")
+    out.append("Proof. vm_compute. reflexivity. Qed.")
+    out.append("")
+    orows = sorted((o, q, c, fl, v) for q in funcs for (c, fl, v, o) in funcs[q].get("vals_on", ()) if o != "this")
+    out.append("(* the assignments made on an object OTHER than `this` (param:<name> / var:<name> / expr), with that object *)")
+    out.append("Definition vals_on : list (string * val_decl) := [")
+    out.append(";\n".join("  (%s, mk_val %s %s %s (%s))" % (coq_str(o), coq_str(q), coq_str(c), coq_str(fl), v) for o, q, c, fl, v in orows))
+    out.append("].")
+    out.append("")
+    out.append("(* reflection: a function that resets ONE of its arguments (ResetSpec.value_obj_funcs) assigns that object initial values only *)")
+    out.append("Lemma reset_object_values_ok : check_object_values inits vals_on = true.")
     out.append("Proof. vm_compute. reflexivity. Qed.")
     out.append("")
     return "\n".join(out)
